@@ -361,6 +361,21 @@ func sortStrings(s []string) {
 	}
 }
 
+// c12RemoteCLIHung convicts a remote CLI run that did not finish (the clients have no timeout of their own; the
+// harness kills the process after 120 s) and makes the worker stop using this server.
+func c12RemoteCLIHung(c *fw.Ctx, name string, lres, rres cliResult) bool {
+	if rres.T1-rres.T0 < 100 || lres.T1-lres.T0 >= 100 {
+		return false
+	}
+	c.Violationf("remote-request-hangs:cli-"+name, fw.J{"local": lres.brief(), "remote": rres.brief()}, "%s against the server did not finish within 100 s (against the directory it took %d s)", name, lres.T1-lres.T0)
+	if cm, ok := c.Env.State["server_cmd"].(*exec.Cmd); ok && cm.Process != nil {
+		cm.Process.Kill()
+	}
+	delete(c.Env.State, "server_url")
+	c.Env.State["c12_server_hung"] = true
+	return true
+}
+
 // c12CLI runs the real commands against the directory and against the URL inside one wall-clock second.
 func c12CLI(c *fw.Ctx, r *rand.Rand, u, served, caseDir string, rels []string, files map[string]model.Layout) {
 	// CLI fixtures must be current at wall clock: rebuild two files now
@@ -415,6 +430,9 @@ func c12CLI(c *fw.Ctx, r *rand.Rand, u, served, caseDir string, rels []string, f
 			}
 			lres = runCLI(c, p.local...)
 			rres = runCLI(c, p.remote...)
+			if c12RemoteCLIHung(c, p.name, lres, rres) {
+				return
+			}
 			okSec = lres.T0 == rres.T1
 			if !okSec {
 				c.Count("discarded_unstable_second", 1)
@@ -456,6 +474,9 @@ func c12CLI(c *fw.Ctx, r *rand.Rand, u, served, caseDir string, rels []string, f
 			}
 			lres = runCLI(c, append([]string{"copy", "-src-base", served, "-dest-base", d1}, common...)...)
 			rres = runCLI(c, append([]string{"copy", "-src-base", u, "-dest-base", d2}, common...)...)
+			if c12RemoteCLIHung(c, "copy", lres, rres) {
+				return
+			}
 			okSec = lres.T0 == rres.T1
 		}
 		if okSec {
@@ -482,6 +503,9 @@ func c12CLI(c *fw.Ctx, r *rand.Rand, u, served, caseDir string, rels []string, f
 			}
 			lres = runCLI(c, append([]string{"sum-copy", "-src-base", served, "-dest-base", d1}, common...)...)
 			rres = runCLI(c, append([]string{"sum-copy", "-src-base", u, "-dest-base", d2}, common...)...)
+			if c12RemoteCLIHung(c, "sum-copy", lres, rres) {
+				return
+			}
 			okSec = lres.T0 == rres.T1
 		}
 		if okSec {
@@ -509,6 +533,9 @@ func c12CLI(c *fw.Ctx, r *rand.Rand, u, served, caseDir string, rels []string, f
 			}
 			lres = runCLI(c, append([]string{"copy", "-src-base", served, "-dest-base", d1}, common...)...)
 			rres = runCLI(c, append([]string{"copy", "-src-base", u, "-dest-base", d2}, common...)...)
+			if c12RemoteCLIHung(c, "copy", lres, rres) {
+				return
+			}
 			okSec = lres.T0 == rres.T1
 		}
 		if okSec {
